@@ -43,3 +43,53 @@ func Reparse(texts map[string]string) ([]protoreflect.FileDescriptor, error) {
 	}
 	return out, nil
 }
+
+// ReparseOne parses one file of a source tree (the others are available as imports).
+func ReparseOne(texts map[string]string, name string) ([]protoreflect.FileDescriptor, error) {
+	src := &protocompile.SourceResolver{Accessor: func(path string) (io.ReadCloser, error) {
+		if t, ok := texts[path]; ok {
+			return io.NopCloser(strings.NewReader(t)), nil
+		}
+		return nil, fmt.Errorf("no such file %s", path)
+	}}
+	global := protocompile.ResolverFunc(func(path string) (protocompile.SearchResult, error) {
+		fd, err := protoregistry.GlobalFiles.FindFileByPath(path)
+		if err != nil {
+			return protocompile.SearchResult{}, err
+		}
+		return protocompile.SearchResult{Desc: fd}, nil
+	})
+	comp := protocompile.Compiler{Resolver: protocompile.CompositeResolver{global, src}, SourceInfoMode: protocompile.SourceInfoStandard}
+	files, err := comp.Compile(context.Background(), name)
+	if err != nil {
+		return nil, err
+	}
+	return []protoreflect.FileDescriptor{files[0]}, nil
+}
+
+// ReparseNames parses the named files; the other texts are available as imports.
+func ReparseNames(texts map[string]string, names []string) ([]protoreflect.FileDescriptor, error) {
+	src := &protocompile.SourceResolver{Accessor: func(path string) (io.ReadCloser, error) {
+		if t, ok := texts[path]; ok {
+			return io.NopCloser(strings.NewReader(t)), nil
+		}
+		return nil, fmt.Errorf("no such file %s", path)
+	}}
+	global := protocompile.ResolverFunc(func(path string) (protocompile.SearchResult, error) {
+		fd, err := protoregistry.GlobalFiles.FindFileByPath(path)
+		if err != nil {
+			return protocompile.SearchResult{}, err
+		}
+		return protocompile.SearchResult{Desc: fd}, nil
+	})
+	comp := protocompile.Compiler{Resolver: protocompile.CompositeResolver{src, global}, SourceInfoMode: protocompile.SourceInfoStandard}
+	files, err := comp.Compile(context.Background(), names...)
+	if err != nil {
+		return nil, err
+	}
+	var out []protoreflect.FileDescriptor
+	for _, f := range files {
+		out = append(out, f)
+	}
+	return out, nil
+}
